@@ -428,3 +428,60 @@ theorem parseDuration_formatDurAbs (d : Nat) (hd : (d : Int) ≤ maxInt64) :
     rw [this]; simp
 
 end OG.C12
+
+namespace OG.C12
+open OG.Gen.C12
+
+/-! ### numbers -/
+
+theorem digitsVal_append (a b : List Char) :
+    digitsVal (a ++ b) = digitsVal a * 10 ^ b.length + digitsVal b := by
+  simp only [digitsVal, List.foldl_append]
+  rw [digitsVal_foldl]
+  rfl
+
+theorem digitsVal_zeros (k : Nat) : digitsVal (List.replicate k '0') = 0 := by
+  induction k with
+  | zero => rfl
+  | succ n ih =>
+    rw [List.replicate_succ, digitsVal_cons, ih]
+    simp [digitVal]
+
+theorem replicate_allDigits (k : Nat) : ∀ c ∈ List.replicate k '0', isDigit c = true := by
+  intro c hc
+  rw [List.mem_replicate] at hc
+  rw [hc.2]; decide
+
+/-- a non-integral canonical decimal is printed as a NUMBER that reads back as itself
+(`strconv.ParseFloat(strconv.FormatFloat(v,'f',-1,64)) = v` in the decimal model). -/
+theorem parseNumText_formatNum (m s : Nat) (hs : s ≠ 0) (hm : m % 10 ≠ 0) :
+    parseNumText (formatNum ⟨false, m, s⟩) = ⟨false, m, s⟩ := by
+  have hall : ∀ c ∈ padLeft (s + 1) (natDigits m), isDigit c = true := by
+    intro c hc
+    simp only [padLeft, List.mem_append] at hc
+    rcases hc with h | h
+    · exact replicate_allDigits _ c h
+    · exact natDigits_allDigits m c h
+  have hlen : s + 1 ≤ (padLeft (s + 1) (natDigits m)).length := by
+    simp only [padLeft, List.length_append, List.length_replicate]; omega
+  have hval : digitsVal (padLeft (s + 1) (natDigits m)) = m := by
+    simp only [padLeft]
+    rw [digitsVal_append, digitsVal_zeros, digitsVal_natDigits]; simp
+  generalize hp : padLeft (s + 1) (natDigits m) = p at hall hlen hval
+  simp only [formatNum, hs, if_false, Bool.false_eq_true, hp]
+  have htd : p.take (p.length - s) ++ p.drop (p.length - s) = p := List.take_append_drop _ _
+  have hdl : (p.drop (p.length - s)).length = s := by simp only [List.length_drop]; omega
+  have htk : ∀ c ∈ p.take (p.length - s), isDigit c = true := fun c hc => hall c (List.mem_of_mem_take hc)
+  have hdr : ∀ c ∈ p.drop (p.length - s), isDigit c = true := fun c hc => hall c (List.mem_of_mem_drop hc)
+  unfold parseNumText
+  rw [splitDigits_append _ _ htk (by intro c r h; cases h; decide)]
+  simp only
+  have h2 := splitDigits_append (p.drop (p.length - s)) [] hdr (by intro c r h; cases h)
+  rw [List.append_nil] at h2
+  rw [h2]
+  simp only [htd, hval, hdl]
+  unfold Num.mk'
+  obtain ⟨k, rfl⟩ : ∃ k, s = k + 1 := ⟨s - 1, by omega⟩
+  simp [Num.normAux, hm]
+
+end OG.C12
